@@ -133,6 +133,31 @@ def repair (c : Cluster) (j i : Nat) (removalsFirst : Bool) : Cluster × RepairO
       (setNode c1 j { me' with tracker := tr }, .synced modified.length removed.length)
     else (c1, .failed)
 
+/-- An exchange whose document fetch is refused by the peer (`fetch_docs` is answered with an error:
+the peer's storage could not read the documents).  The removal half needs no fetch and runs
+(`begin_keyspace_sync` spawns the two halves side by side and lets the removal task finish whatever
+happens to the other one); the modification half applies nothing; the exchange reports the failure
+and - this is what makes the next poll try again - the tracker keeps what it held.  With nothing to
+fetch the exchange is the ordinary one. -/
+def repairFetchFail (c : Cluster) (j i : Nat) : Cluster × RepairOut :=
+  let peer := getNode c i
+  let me := getNode c j
+  if !peer.exists_ then (c, .skipped)
+  else if me.tracker.getD i none == some peer.change then (c, .skipped)
+  else
+    let c0 := touch c j
+    let dm := diff (getNode c0 j).ks.set peer.ks.set
+    if dm.1.isEmpty then repair c j i true
+    else ((applyRemovals c0 j dm.2).1, .failed)
+
+/-- Does the exchange ask the peer for documents (so that a refused fetch is met at all)? -/
+def repairFetches (c : Cluster) (j i : Nat) : Bool :=
+  let peer := getNode c i
+  let me := getNode c j
+  if !peer.exists_ then false
+  else if me.tracker.getD i none == some peer.change then false
+  else !(diff (getNode (touch c j) j).ks.set peer.ks.set).1.isEmpty
+
 /-! ### The same exchange in two steps: the peer's store may change between the state snapshot and the document fetch -/
 
 /-- What an exchange has decided once it holds the peer's state: the two lists of the difference,
